@@ -6,18 +6,20 @@ res = json.load(open('/verif/tools/seed_results.json'))
 for key, r in sorted(res.items()):
     p, k = key.split('-')
     d = os.path.join(SRC, p, k)
+    out = os.path.join(DST, key)
+    if not os.path.isdir(d):
+        d = out   # already saved: refresh meta.json only
     if not os.path.isdir(d):
         print('missing', key); continue
-    out = os.path.join(DST, key)
     os.makedirs(out, exist_ok=True)
     for f in ('patch.diff', 'demo.rs', 'notes.md', 'patch_orig.diff'):
-        if os.path.exists(os.path.join(d, f)): shutil.copy(os.path.join(d, f), os.path.join(out, f))
+        if d != out and os.path.exists(os.path.join(d, f)): shutil.copy(os.path.join(d, f), os.path.join(out, f))
     notes = open(os.path.join(d, 'notes.md')).read() if os.path.exists(os.path.join(d, 'notes.md')) else ''
     title = notes.splitlines()[0].lstrip('# ').strip() if notes else key
     m = re.search(r'##[^\n]*(needed|needs|manifest)[^\n]*\n(.*?)(\n## |\Z)', notes, re.S | re.I)
     needs = m.group(2).strip() if m else ''
     vlog = os.path.join(d, 'verify.log')
-    verdict = open(vlog).read().strip().splitlines()[-1] if os.path.exists(vlog) else ''
+    verdict = open(vlog).read().strip().splitlines()[-1] if os.path.exists(vlog) else (json.load(open(os.path.join(out, 'meta.json')))['confirmation']['verdict'] if os.path.exists(os.path.join(out, 'meta.json')) else '')
     meta = {
         'id': key, 'property': p, 'change': title,
         'needs_to_manifest': needs,
